@@ -105,6 +105,10 @@ func init() {
 			}
 			bc := c.VerifBytecode()
 			fnIdx := map[uintptr]int{codeKey(bc.MainFunction): 1}
+			// function objects made by copy() carry the same code in a fresh slice: identified by their instruction
+			// bytes, and if two functions of the program have the same bytes the run is not validated
+			byCode := map[string][]int{string(bc.MainFunction.Instructions): {1}}
+			ambiguous := false
 			mainIns, ok := decodeIns(bc.MainFunction.Instructions)
 			if !ok {
 				return map[string]interface{}{"outcome": V{"k": "undecodable"}}
@@ -120,6 +124,7 @@ func init() {
 					}
 					fns = append(fns, V{"ins": ins, "nl": k.NumLocals, "np": k.NumParameters, "va": k.VarArgs})
 					fnIdx[codeKey(k)] = len(fns)
+					byCode[string(k.Instructions)] = append(byCode[string(k.Instructions)], len(fns))
 					consts = append(consts, V{"k": "fnref", "f": len(fns)})
 				case *tengo.Int, *tengo.Float, *tengo.Char, *tengo.String:
 					consts = append(consts, encodeValue(k))
@@ -163,7 +168,16 @@ func init() {
 					return
 				}
 				s := v.VerifState()
-				e := V{"fi": s.FI, "f": fnIdx[codeKey(s.Fn)], "off": s.IP, "sp": s.SP, "top": V{"k": "junk"}}
+				fidx, known := fnIdx[codeKey(s.Fn)]
+				if !known {
+					if c := byCode[string(s.Fn.Instructions)]; len(c) == 1 {
+						fidx = c[0]
+						fnIdx[codeKey(s.Fn)] = fidx
+					} else {
+						ambiguous = true
+					}
+				}
+				e := V{"fi": s.FI, "f": fidx, "off": s.IP, "sp": s.SP, "top": V{"k": "junk"}}
 				if s.SP > 0 {
 					e["top"] = digest(v.VerifTop(0))
 				}
@@ -179,6 +193,9 @@ func init() {
 			}
 			if truncated {
 				return map[string]interface{}{"outcome": V{"k": "too_long"}}
+			}
+			if ambiguous {
+				return map[string]interface{}{"outcome": V{"k": "ambiguous_copied_function"}}
 			}
 			greal := []interface{}{}
 			gl, _ := c.VerifGlobals()
